@@ -860,34 +860,15 @@ Proof.
     destruct (accept_string_loop q r) as [[raw rest]|cl [pp|]|k|]; cbn [bind]; exact P || exact I.
 Qed.
 
-Lemma existsb_replace n : forall v, (length v <= n)%nat ->
-  existsb is_surrogate v = false -> existsb is_surrogate (replace_bsl_sq v) = false.
-Proof.
-  induction n as [|n IH]; intros v Hl H.
-  { destruct v; [reflexivity|cbn [length] in Hl; lia]. }
-  destruct v as [|c r]; [reflexivity|]. cbn [replace_bsl_sq]. destruct r as [|d r']; [exact H|].
-  cbn [length] in Hl. cbn [existsb] in H. apply orb_false_iff in H as [H1 H2].
-  destruct ((c =? BSL) && (d =? SQ)).
-  - cbn [existsb]. apply orb_false_iff in H2 as [H2 H3].
-    rewrite (IH r' ltac:(lia) H3). reflexivity.
-  - cbn [existsb]. rewrite H1. apply (IH (d :: r') ltac:(cbn [length]; lia) H2).
-Qed.
-
-Lemma existsb_app_l {A} (f : A -> bool) a b : existsb f (a ++ b) = false -> existsb f a = false.
-Proof. rewrite existsb_app, orb_false_iff. tauto. Qed.
-
-Lemma literal_errors_segment q src st : is_quote q -> no_surrogates src ->
+Lemma literal_errors_segment q src st : is_quote q ->
   match accept_string q src with
   | Ok (raw, rest) => ok_or_syntax (site_value st q raw)
   | LErr LiquidSyntaxError None => True
   | _ => False
   end.
 Proof.
-  intros Hq Hs. destruct (accept_string q src) as [[raw rest]|cl pp|k|] eqn:Ea.
-  - destruct (accept_string_inv q src raw rest Ea) as (_ & H2 & _).
-    rewrite site_value_eq by assumption. apply unescape_total. unfold no_surrogates in *.
-    rewrite H2 in Hs. apply existsb_app_l in Hs.
-    destruct (q =? SQ); [apply (existsb_replace (length raw)); [lia|assumption]|assumption].
+  intros Hq. destruct (accept_string q src) as [[raw rest]|cl pp|k|] eqn:Ea.
+  - rewrite site_value_eq by assumption. apply unescape_total.
   - unfold accept_string in Ea. destruct src as [|c r].
     + inversion Ea; subst. exact I.
     + destruct (c =? q); [discriminate|].
